@@ -102,27 +102,62 @@ def run(rep, facts):
             rep.ok("R13.2", "semaphore-size", "Semaphore::new(config.max_conns.get())", loc)
         else:
             rep.violation("R13.2", "semaphore-size", "semaphore is sized by %s, expected config.max_conns.get()" % ir.show(a)[:100], loc)
-    rsites = common.construction_sites(facts, RUNNER)
-    rep.floor("R13.2", "Runner construction sites", len(rsites), 2)
-    for (b, bi, fields, loc) in rsites:
-        if "sema" not in fields:
-            rep.undecidable("R13.2", "runner-sema-field", "Runner has no field `sema`", loc)
-            continue
-        e = ir.peel(fields["sema"])
-        while e[0] == 'call' and e[1] in ("std::sync::Arc::new", "alloc::sync::Arc::new") and e[2]:
-            e = ir.peel(e[2][0])       # Arc::new(x) is what `x.into()` does for an Arc field
-        kind = None
-        if e[0] == 'call' and e[1].endswith("Clone>::clone") and e[2]:
-            a0 = ir.peel(e[2][0])
-            if a0[0] == 'field' and a0[2] == 'sema' and ir.peel(a0[1])[0] == 'param':
-                kind = "clone of self.sema"
-        in_clone = bool(b.raw.get("impl_trait")) and F.norm(b.raw["impl_trait"]) == "std::clone::Clone"
-        if e[0] == 'call' and e[1] == "async_lock::Semaphore::new" and not in_clone:
-            kind = "the one Semaphore::new"     # a clone must share, never create (also when both go through one private constructor)
-        if kind:
-            rep.ok("R13.2", "runner-sema[%s]" % b.npath, "sema <- " + kind, loc)
-        else:
-            rep.violation("R13.2", "runner-sema[%s]" % b.npath, "Runner.sema is %s; a clone must share the original semaphore" % ir.show(e)[:100], loc)
+    # the semaphore may sit in Runner itself or in a private struct nested in it (`shared: RunnerShared { config, sema }`): every type
+    # that (transitively) holds the Arc<Semaphore> is held to the same rule at each of its construction sites
+    def fields_of(adt):
+        a_ = facts.adts.get(adt)
+        return a_["variants"][0]["fields"] if a_ and a_.get("variants") else []
+    holders = {}        # adt -> (field name, 'direct' | nested holder adt)
+    for adt in facts.adts:
+        for fl in fields_of(adt):
+            if "async_lock::Semaphore" in fl["ty"] and "Guard" not in fl["ty"]:
+                holders[adt] = (fl["name"], 'direct')
+    changed = True
+    while changed:
+        changed = False
+        for adt in facts.adts:
+            if adt in holders:
+                continue
+            for fl in fields_of(adt):
+                h = [x for x in holders if F.norm(fl["ty"]) == x]
+                if h:
+                    holders[adt] = (fl["name"], h[0])
+                    changed = True
+    if RUNNER not in holders:
+        rep.undecidable("R13.2", "runner-sema-field", "Runner holds no Arc<Semaphore>, directly or through a nested struct", None)
+    nsites = 0
+    for adt, (fname, how) in sorted(holders.items()):
+        sites_ = common.construction_sites(facts, adt)
+        if adt == RUNNER:
+            rep.floor("R13.2", "Runner construction sites", len(sites_), 2)
+        for (b, bi, fields, loc) in sites_:
+            nsites += 1
+            if fname not in fields:
+                rep.undecidable("R13.2", "runner-sema-field", "%s is built without its field `%s`" % (adt, fname), loc)
+                continue
+            e = ir.peel(fields[fname])
+            while e[0] == 'call' and e[1] in ("std::sync::Arc::new", "alloc::sync::Arc::new") and e[2]:
+                e = ir.peel(e[2][0])       # Arc::new(x) is what `x.into()` does for an Arc field
+            kind = None
+            in_clone = bool(b.raw.get("impl_trait")) and F.norm(b.raw["impl_trait"]) == "std::clone::Clone"
+            if e[0] == 'call' and e[1].endswith("Clone>::clone") and e[2]:
+                a0 = ir.peel(e[2][0])
+                if a0[0] == 'field' and a0[2] == fname and ir.peel(a0[1])[0] == 'param':
+                    kind = "clone of self.%s" % fname
+            if how == 'direct':
+                if e[0] == 'call' and e[1] == "async_lock::Semaphore::new" and not in_clone:
+                    kind = "the one Semaphore::new"     # a clone must share, never create (also when both go through one private constructor)
+            else:
+                # the nested holder: built right here (its own site is checked), or moved in
+                if e[0] == 'agg' and e[1] == 'adt' and e[2].rsplit("::", 1)[0] == how and not in_clone:
+                    kind = "a %s built at this site" % how.split("::")[-1]
+                elif e[0] == 'param' and not in_clone:
+                    kind = "a %s handed in" % how.split("::")[-1]
+            key = "runner-sema[%s]" % b.npath if adt == RUNNER else "runner-sema[%s/%s]" % (b.npath, adt.split("::")[-1])
+            if kind:
+                rep.ok("R13.2", key, "%s.%s <- %s" % (adt.split("::")[-1], fname, kind), loc)
+            else:
+                rep.violation("R13.2", key, "%s.%s is %s; a clone must share the original semaphore" % (adt.split("::")[-1], fname, ir.show(e)[:100]), loc)
 
     # ---- R13.3 ------------------------------------------------------------------------------------------
     leaks = leak_sites(facts)
